@@ -31,15 +31,6 @@ def cfg(consts, invs, props=()):
 
 
 # ---------------------------------------------------------------------------------------------- GEN comparison
-def refusal(ctx, c, leg, r, tag):
-    """Spec expects a refusal with one of c['errs']; r is what the real code did."""
-    if r["res"] != "refuse":
-        return "code_accepts"
-    if r.get("err") not in c["errs"]:
-        return "refused_by_%s" % r.get("err")
-    return None
-
-
 def judge_port(c, r):
     out = []
     m = r["main_tub"]
